@@ -74,7 +74,7 @@ def instance(
     if not sigs:
         return "", "empty"
     ints = int_pool(src)
-    cls = d.one(["free", "free", "free", "dense", "single", "ties", "negzero", "gaps", "mixed"])
+    cls = d.one(["free", "free", "free", "dense", "single", "ties", "negzero", "gaps", "mixed", "cluster", "cluster"])
     mode = "mixed" if cls == "mixed" or d.p(12) else "int"
     small = {
         "free": [0, 1, 2, 3],
@@ -84,6 +84,7 @@ def instance(
         "negzero": [-2, -1, 0, 1],
         "gaps": [-1, 2, 5, 9],
         "mixed": [0, 1, 2],
+        "cluster": [1, 2, 3],
     }[cls]
     facts: list[str] = []
     for name, arity in sigs:
@@ -97,6 +98,17 @@ def instance(
         else:
             k = d.i(0, max_per_pred)
         rows: list[list[str]] = []
+        if cls == "cluster" and arity > 0:
+            # several atoms that agree everywhere except at one position (k matching atoms of a join, a group with several values)
+            pos = d.i(0, arity - 1)
+            for _ in range(d.i(1, 2)):
+                base = [_value(d, s, ints, small, mode) for s in srt]
+                rows.append(base)
+                for _ in range(d.i(1, 3)):
+                    row = list(base)
+                    row[pos] = _value(d, srt[pos], ints, ints, mode)
+                    rows.append(row)
+            k = 0
         for _ in range(k):
             if arity == 0:
                 rows.append([])
@@ -149,6 +161,15 @@ def trait_subset(draw: Callable, allowed: Optional[list[str]] = None) -> list[st
         res = sorted({d.one(allowed), d.one(allowed)}, key=allowed.index)
     else:
         res = d.subset(allowed, 50)
+    return res
+
+
+def trait_subset_light(draw: Callable, allowed: Optional[list[str]] = None) -> list[str]:
+    """like trait_subset, but `math` (sympy: 10-100 times slower than all other passes together, and the subject of C14's own
+    check) is dropped from six of ten subsets that contain it, so that the umbrella checks see more programs per second"""
+    res = trait_subset(draw, allowed)
+    if "math" in res and D(draw).p(60):
+        res = [t for t in res if t != "math"]
     return res
 
 
